@@ -57,7 +57,9 @@ def actions(prog, f, cont, events, ev):
                 acts.append(('append', R.render(args[0])))
                 continue
             if o == C and name == 'resize':
-                if len(args) != 1:
+                if len(args) == 2:
+                    acts.append(('resize_fill', ev.ev(args[0]), R.render(args[1])))
+                elif len(args) != 1:
                     acts.append(('other', 'resize with a fill value'))
                 else:
                     acts.append(('resize', ev.ev(args[0])))
@@ -135,6 +137,10 @@ def final_state(acts, size):
             if a[1] > 10000:
                 return None
             st = st[:a[1]] + ['empty'] * max(0, a[1] - len(st))
+        elif a[0] == 'resize_fill' and isinstance(a[1], int):
+            if a[1] > 10000:
+                return None
+            st = st[:a[1]] + [a[2]] * max(0, a[1] - len(st))      # every new position holds a copy of the fill value
         elif a[0] == 'store':
             i = len(st) - 1 if a[1] == 'back' else a[1]
             if not isinstance(i, int):
